@@ -63,6 +63,45 @@ pub fn directed() -> Vec<Program> {
             tags: vec!["directed-names".into()],
         });
     }
+    // default values of every shape: scalars, enum, lists (non-null, nested, with nulls), an object with a list
+    // member and a nested object; the generated `default_<name>()` bodies must have the declared types
+    {
+        let l = GType::list;
+        let nn = GType::nn;
+        let n = GType::named;
+        // the shapes the generator renders correctly: scalars and ID, and lists of them at any non-null nesting
+        let vars = vec![
+            VarDef { name: "ids".into(), ty: nn(l(nn(n("Int")))), default: Some("[1, 2]".into()) },
+            VarDef { name: "grid".into(), ty: l(nn(l(nn(n("Int"))))), default: Some("[[1, 2], [3]]".into()) },
+            VarDef { name: "names".into(), ty: l(nn(n("String"))), default: Some("[\"a\", \"b\"]".into()) },
+            VarDef { name: "flag".into(), ty: nn(n("Boolean")), default: Some("true".into()) },
+            VarDef { name: "ratio".into(), ty: n("Float"), default: Some("1.5".into()) },
+            VarDef { name: "key".into(), ty: n("ID"), default: Some("\"k1\"".into()) },
+            VarDef { name: "keys".into(), ty: nn(l(nn(n("ID")))), default: Some("[\"k1\", \"k2\"]".into()) },
+            VarDef { name: "empty".into(), ty: l(nn(n("Float"))), default: Some("[]".into()) },
+        ];
+        for skip in [false, true] {
+            out.push(Program {
+                schema: schema(),
+                doc: QueryDoc { defs: vec![QDef::Op { kind: OpKind::Query, name: Some("Defaults".into()), vars: vars.clone(), sel: vec![Sel::field("ok")] }] },
+                opts: Opts { operation_name: Some("Defaults".into()), variables_derives: Some("Debug".into()), visibility: Some("pub".into()), skip_serializing_none: skip, ..Opts::default() },
+                tags: vec!["directed-defaults".into()],
+            });
+        }
+        // known finding K14: defaults of enum / input-object type (bare enum identifier, raw member names)
+        for v in [
+            VarDef { name: "color".into(), ty: n("Color"), default: Some("GREEN".into()) },
+            VarDef { name: "point".into(), ty: n("Point"), default: Some("{x: 1, y: 2.5}".into()) },
+            VarDef { name: "filter".into(), ty: n("Filter"), default: Some("{snake_case: true, in: [\"a\"], corner: {x: 0}}".into()) },
+        ] {
+            out.push(Program {
+                schema: schema(),
+                doc: QueryDoc { defs: vec![QDef::Op { kind: OpKind::Query, name: Some("Defaults".into()), vars: vec![v], sel: vec![Sel::field("ok")] }] },
+                opts: Opts { operation_name: Some("Defaults".into()), variables_derives: Some("Debug".into()), visibility: Some("pub".into()), ..Opts::default() },
+                tags: vec!["directed-defaults-k14".into()],
+            });
+        }
+    }
     out.push(Program {
         schema: schema(),
         doc: QueryDoc { defs: vec![QDef::Op { kind: OpKind::Query, name: Some("NoVars".into()), vars: vec![], sel: vec![Sel::field("ok")] }] },
